@@ -57,6 +57,9 @@ type vSpelling struct {
 	tag map[string]string
 	opt map[string]string // whole option strings
 	sep []string          // separators between words of a command
+	dst map[string]string // destinations
+	optAll bool           // opt also maps the empty option string (every add gets options)
+	emptyTags bool        // definitions carry an empty non-nil tag list ("tags": []) instead of none
 	dup bool              // `route add` spells its tag list with the first tag repeated at the end (legal; Consul does not de-duplicate service tags)
 }
 
@@ -91,7 +94,19 @@ func eqTagSets(a, b []string) bool {
 	return true
 }
 
+func (sp *vSpelling) dstOf(d string) string {
+	if sp != nil && sp.dst != nil {
+		if v, ok := sp.dst[d]; ok {
+			return v
+		}
+	}
+	return d
+}
+
 func (sp *vSpelling) optOf(o string) string {
+	if o == "" && (sp == nil || !sp.optAll) {
+		return ""
+	}
 	if sp != nil && sp.opt != nil {
 		if v, ok := sp.opt[o]; ok {
 			return v
@@ -162,15 +177,15 @@ func cmdText(c vCmd, sp *vSpelling, k int) string {
 		w("add")
 		w(c.Svc)
 		w(c.Src)
-		w(c.Dst)
+		w(sp.dstOf(c.Dst))
 		if c.Wn != 0 {
 			w("weight")
 			w(fmtWeight(c.Wn, c.Wd))
 		}
 		tags()
-		if c.Opts != "" {
+		if o := sp.optOf(c.Opts); o != "" {
 			w("opts")
-			w(`"` + sp.optOf(c.Opts) + `"`)
+			w(`"` + o + `"`)
 		}
 	case "del":
 		w("route")
@@ -182,7 +197,7 @@ func cmdText(c vCmd, sp *vSpelling, k int) string {
 			w(c.Src)
 		}
 		if c.Dst != "" {
-			w(c.Dst)
+			w(sp.dstOf(c.Dst))
 		}
 		tags()
 	case "weight":
@@ -211,7 +226,10 @@ func scriptText(cs []vCmd, sp *vSpelling, seed int) string {
 }
 
 func cmdDef(c vCmd, sp *vSpelling) RouteDef {
-	d := RouteDef{Service: c.Svc, Src: c.Src, Dst: c.Dst, Tags: sp.tags(c.Tags)}
+	d := RouteDef{Service: c.Svc, Src: c.Src, Dst: sp.dstOf(c.Dst), Tags: sp.tags(c.Tags)}
+	if sp != nil && sp.emptyTags && len(c.Tags) == 0 {
+		d.Tags = []string{} // "tags": [] in the custom backend's JSON
+	}
 	switch c.Op {
 	case "add":
 		d.Cmd = RouteAddCmd
@@ -224,8 +242,8 @@ func cmdDef(c vCmd, sp *vSpelling) RouteDef {
 	if c.Wn != 0 {
 		d.Weight = ratio(c.Wn, c.Wd)
 	}
-	if c.Opts != "" {
-		d.Opts = optsMap(sp.optOf(c.Opts))
+	if o := sp.optOf(c.Opts); o != "" && c.Op == "add" {
+		d.Opts = optsMap(o)
 	}
 	return d
 }
@@ -324,8 +342,8 @@ func diffTable(got map[string][]pTarget, want vTable, sp *vSpelling, effective b
 		}
 		for i := range wts {
 			g, w := gts[i], wts[i]
-			if g.Svc != w.Svc || g.Dst != w.Dst {
-				return "target-identity", fmt.Sprintf("route %q target %d is %s %s, want %s %s", k, i, g.Svc, g.Dst, w.Svc, w.Dst)
+			if g.Svc != w.Svc || g.Dst != sp.dstOf(w.Dst) {
+				return "target-identity", fmt.Sprintf("route %q target %d is %s %s, want %s %s", k, i, g.Svc, g.Dst, w.Svc, sp.dstOf(w.Dst))
 			}
 			if sp != nil && sp.dup {
 				// repeated tags: whether the table keeps the repetition is not stated; as sets they must agree
